@@ -29,6 +29,7 @@ def A(text, ref):
 
 CHECKS.update({
  'C17': A("Euler convention of mat_from_rph against the textbook body->NED matrix and the images of the body axes, proper rotation, round trip through mat_to_rph, both branches of the kernel's mat_from_rotvec (path fork on the norm threshold; trig branch characterised as exp([v x]); Taylor branch within 1e-18 by alternating-series enclosures), _phi_to_delta_rph as the eps^1 coefficient of the Euler angles under a platform rotation, stacked = single.", "DESIGN.md 5/C17"),
+ 'C16': A("Closed-form ellipsoid and normal offset, NED frame orthonormal with columns = partial derivatives of ECEF position divided by the principal radii (eps-jets through the real lla_to_ecef / principal_radii / mat_en_from_ll), first-order agreement of perturb_lla / compute_lla_difference / lla_to_ned with that geometry, curvature matrix = rotation of the NED frame under displacement, gravity = compiled copy = gravity_n = gravitation_ecef minus centrifugal term, rate_n, parity in latitude, stacked = scalar; proved with symbolic ellipsoid and gravity constants; structure of the Olson inverse (longitude exact, z-mirror, stacked = single) by path exploration of its masked assignments. The accuracy of the Olson inverse is stated as outside.", "DESIGN.md 5/C16"),
 })
 
 NA = {
